@@ -282,7 +282,12 @@ func (c *c19Mon) plainExport(sc *StepCtx) {
 	if pan, _ := guard(func() { gs = service.ExportGenesis(ctx, w.a.k) }); pan != "" {
 		return // judged by the main scenario
 	}
+	before, _ := w.a.app.AppCodec().MarshalJSON(gs)
 	accepted := types.ValidateGenesis(*gs) == nil
+	if after, _ := w.a.app.AppCodec().MarshalJSON(gs); !bytes.Equal(before, after) {
+		m.fail(sc, "C19", "export-validates", "validation-edits-genesis", "ValidateGenesis changed the genesis it was given")
+		m.fail(sc, "C09", "completed-is-final", "validation-edits-genesis", "ValidateGenesis changed the genesis it was given (a context's state is not validation's to set)")
+	}
 	nonPaused := 0
 	for _, rc := range sc.Post.Contexts {
 		if rc.State != types.PAUSED {
@@ -312,6 +317,19 @@ func (c *c19Mon) plainExport(sc *StepCtx) {
 	for _, v := range sub.stats.Violations {
 		m.fail(sc, v.Prop, v.Rule, "plain-export-import", "a genesis exported without preparation passes validation, but the imported state breaks an invariant: %s", v.Msg)
 	}
+	for id, a := range sc.Post.Contexts {
+		b, ok := s.Contexts[id]
+		if !ok {
+			continue
+		}
+		if a.State == types.COMPLETED && b.State != types.COMPLETED {
+			m.fail(sc, "C09", "completed-is-final", "plain-export-import", "killed context %.16s is %s after the import of a plain export", id, b.State)
+		}
+		if b.State == types.COMPLETED && len(s.ExpQ[id]) == 0 && len(sc.Post.ExpQ[id]) > 0 {
+			// its in-flight batch can never expire on the new chain: the context can never be removed
+			m.fail(sc, "C16", "finished-context-removed", "plain-export-import", "killed context %.16s, whose batch was in flight at the export, is imported with nothing scheduled: it is never removed", id)
+		}
+	}
 }
 
 func (c *c19Mon) badPricingGenesis(sc *StepCtx, gs *types.GenesisState) {
@@ -320,12 +338,17 @@ func (c *c19Mon) badPricingGenesis(sc *StepCtx, gs *types.GenesisState) {
 	if len(gs.Bindings) == 0 {
 		return
 	}
-	for variant := 0; variant < 2; variant++ {
+	for variant := 0; variant < 3; variant++ {
 		bad := *gs
 		bad.Bindings = append([]types.ServiceBinding(nil), gs.Bindings...)
 		b := bad.Bindings[len(bad.Bindings)-1]
 		b.Pricing = fmt.Sprintf(`{"price":"100%s","promotions_by_volume":[{"volume":1,"discount":"1.5"}]}`, denom)
 		b.Available = variant == 0
+		if variant == 2 {
+			// a second member that differs from "price" only in case: the schema refuses it, a
+			// lenient decoder would let it replace the price
+			b.Pricing = fmt.Sprintf(`{"price":"1000%s","PRICE":"1%s"}`, denom, denom)
+		}
 		if !b.Available {
 			b.DisabledTime = w.now
 		}
@@ -339,6 +362,11 @@ func (c *c19Mon) badPricingGenesis(sc *StepCtx, gs *types.GenesisState) {
 		}
 		ctx2, _ := c.spare.baseCtx.CacheContext()
 		if pan, _ := guard(func() { service.InitGenesis(ctx2, c.spare.k, bad) }); pan != "" {
+			continue
+		}
+		if variant == 2 {
+			m.fail(sc, "C14", "min-deposit", "genesis-accepts-ambiguous-pricing", "a genesis whose binding publishes the pricing %s passes validation and is imported", b.Pricing)
+			m.fail(sc, "C15", "pricing-record", "genesis-accepts-ambiguous-pricing", "a genesis whose binding publishes the pricing %s passes validation and is imported", b.Pricing)
 			continue
 		}
 		m.fail(sc, "C07", "discount-in-range", fmt.Sprintf("genesis-accepts/avail%v", b.Available), "a genesis whose binding (%s, available=%v) publishes a volume discount of 1.5 passes validation and is imported: every discount lies strictly between 0 and 1", b.ServiceName, b.Available)
